@@ -26,6 +26,8 @@ func main() {
 	switch os.Args[1] {
 	case "check":
 		os.Exit(cmdCheck(os.Args[2:]))
+	case "replay":
+		os.Exit(cmdReplay(os.Args[2:]))
 	default:
 		fmt.Fprintln(os.Stderr, "unknown command", os.Args[1])
 		os.Exit(2)
@@ -42,6 +44,8 @@ func cmdCheck(args []string) int {
 	workers := fs.Int("workers", 16, "worker count")
 	noReplay := fs.Bool("no-replay", false, "skip native validation/replay")
 	verbose := fs.Bool("v", false, "verbose")
+	arith := fs.String("arith", "", "force arithmetic encoding: int or bv")
+	solverKind := fs.String("solver", "", "z3, z3-new or cvc5 (default: per tier)")
 	fs.Parse(args)
 	if *prop == "" {
 		fmt.Fprintln(os.Stderr, "need -prop")
@@ -51,7 +55,7 @@ func cmdCheck(args []string) int {
 		*tier = t
 	}
 	start := time.Now()
-	run := &CheckRun{Prop: *prop, Tier: *tier, Repo: *repo, Verif: *verif, Only: *only, Workers: *workers, NoReplay: *noReplay, Verbose: *verbose}
+	run := &CheckRun{Prop: *prop, Tier: *tier, Repo: *repo, Verif: *verif, Only: *only, Workers: *workers, NoReplay: *noReplay, Verbose: *verbose, Solver: *solverKind, Arith: *arith}
 	code := run.Execute()
 	fmt.Printf("[%s] %s tier=%s exit=%d wall=%.1fs\n", *prop, verdictWord(code), *tier, code, time.Since(start).Seconds())
 	return code
@@ -96,4 +100,20 @@ func harnessFiles(verif, prop string) (map[string][]string, error) {
 		sort.Strings(v)
 	}
 	return out, err
+}
+
+// cmdReplay re-runs a stored counterexample witness natively against /repo.
+func cmdReplay(args []string) int {
+	fs := flag.NewFlagSet("replay", flag.ExitOnError)
+	prop := fs.String("prop", "", "property id")
+	file := fs.String("file", "", "witness file written by a check")
+	repo := fs.String("repo", "/repo", "repository root")
+	verif := fs.String("verif", "/verif", "verification root")
+	fs.Parse(args)
+	if *prop == "" || *file == "" {
+		fmt.Fprintln(os.Stderr, "need -prop and -file")
+		return 2
+	}
+	r := &CheckRun{Prop: *prop, Tier: "quick", Repo: *repo, Verif: *verif, origPath: origPATH}
+	return r.ReplayFile(*file)
 }
